@@ -449,9 +449,10 @@ func (fr *Frame) oblige(kind, detail, cond string, clause string) {
 		x.obls = append(x.obls, &Obligation{Name: name, Kind: kind, Fn: x.fnKey, Props: x.props, Pos: x.em.Mark(),
 			Goal: sAnd(fr.curReach, sNot(strings.ReplaceAll(cond, "(hint ", "(hintg "))), Expect: "unsat", Clause: clause, em: x.em, replay: x.replayCtx, rets: x.curRets, Only: x.onlyProps})
 	}
-	if kind == "post" || kind == "frame" {
+	if kind == "post" || kind == "frame" || cond == "false" {
 		// nothing follows a return; keeping failed postconditions out of the assumptions also
-		// keeps the vacuity guard (cover:return) meaningful
+		// keeps the vacuity guard (cover:return) meaningful. An obligation that is literally
+		// false (a guard that no longer binds) is reported, not assumed.
 		return
 	}
 	x.em.Assert(sImp(fr.curReach, cond))
@@ -773,15 +774,16 @@ func (fr *Frame) bitop(op token.Token, a, b string, rt types.Type) string {
 		}
 		return sBig(r)
 	}
-	if op == token.AND && !signed {
-		// x & (2^k - 1)  ==  x mod 2^k
+	if op == token.AND {
+		// x & (2^k - 1)  ==  x mod 2^k (also for a negative x in two's complement: SMT mod is
+		// the non-negative remainder)
 		mask, other := cb, a
 		if oka {
 			mask, other = ca, b
 		}
 		if mask != nil {
 			m1 := new(big.Int).Add(mask, big.NewInt(1))
-			if m1.BitLen() > 0 && new(big.Int).And(m1, mask).Sign() == 0 {
+			if mask.Sign() >= 0 && m1.BitLen() > 0 && new(big.Int).And(m1, mask).Sign() == 0 {
 				return "(mod " + other + " " + m1.String() + ")"
 			}
 		}
@@ -874,6 +876,22 @@ func (fr *Frame) convert(v *SVal, to types.Type) *SVal {
 		return leaf(to, r)
 	case fk == KStr && tk == KSlice:
 		// []byte(s): fresh array whose length is len(s); contents tied to s by an uninterpreted function
+		if b, ok := elemType(to).Underlying().(*types.Basic); ok && b.Kind() == types.Int32 {
+			// []rune(s): between len(s)/4 (rounded up) and len(s) code points, each in
+			// [0, 0x10FFFF]; contents tied to s by an uninterpreted function
+			ref := fr.freshRef("str2runes")
+			f := x.em.Func("str2runes", []string{"Str"}, "(Array Int Int)")
+			g := x.em.Func("str2runes.len", []string{"Str"}, "Int")
+			name := "HA:" + typeKey(elemType(to))
+			hs := heapSort(LElem, "Int")
+			fr.heapSet(name, hs, sStore(x.heapGet(fr.cur, name, hs), ref, sApp(f, v.Term)))
+			x.declStrEmpty()
+			sl := "(strlen " + v.Term + ")"
+			ln := sApp(g, v.Term)
+			x.em.Assert(sAnd(sLe(ln, sl), sLe(sl, "(* 4 "+ln+")"), sLe("0", ln)))
+			x.em.Assert("(forall ((i!rn Int)) (! (and (<= 0 (select " + sApp(f, v.Term) + " i!rn)) (<= (select " + sApp(f, v.Term) + " i!rn) 1114111)) :pattern ((select " + sApp(f, v.Term) + " i!rn))))")
+			return &SVal{T: to, F: []*SVal{leaf(intType, ref), leaf(intType, "0"), leaf(intType, ln), leaf(intType, ln)}}
+		}
 		ref := fr.freshRef("str2bytes")
 		f := x.em.Func("str2bytes", []string{"Str"}, "(Array Int Int)")
 		name := "HA:" + typeKey(elemType(to))
